@@ -8,7 +8,7 @@ export const id = 'C05';
 export const HOSTS = ['inputNoType', 'inputText', 'inputCheckbox', 'inputRadio', 'inputDynamic', 'inputBracedConst', 'inputOtherStatic', 'select', 'textarea', 'component', 'componentUnbound', 'memberInput', 'memberSelect', 'memberDeepTextarea', 'componentKebab'];
 export const TARGETS = ['ident', 'member', 'index', 'deepMember', 'memberOfCall', 'indexOfCallMember', 'thisLikeChain'];
 export const ARGS = ['none', 'ns', 'strSecond', 'computedSecond', 'nsHyphen', 'strSecondHyphen', 'nsValueSuffix', 'strSecondValueSuffix'];
-export const MODS = ['none', 'suffix1', 'suffix2', 'arrayList', 'arrayEmpty'];
+export const MODS = ['none', 'suffix1', 'suffix2', 'arrayList', 'arrayEmpty', 'arrayListLeadNonLit', 'arrayListMidNonLit'];
 
 export function hostOf(b, host) {
   const typeAttr = (v) => A.attr('type', { k: 'str', raw: v });
@@ -74,6 +74,9 @@ export function makeModel(b, hostInfo, targetKind, argForm, modForm, idx) {
   else if (modForm === 'suffix2') { name += '_zz_aa'; den.mods = ['zz', 'aa']; }
   else if (modForm === 'arrayList') { third = '["lazy", "number"]'; den.mods = ['lazy', 'number']; }
   else if (modForm === 'arrayEmpty') { third = '[]'; }
+  // an entry that is not a string literal names no modifier; the literal entries around it still do
+  else if (modForm === 'arrayListLeadNonLit') { const g = b.global({ k: 'str', v: 'ignored' }, { log: false }); third = `[${g}, "trim", "lazy"]`; den.mods = ['trim', 'lazy']; }
+  else if (modForm === 'arrayListMidNonLit') { const g = b.global({ k: 'bool', v: false }, { log: false }); third = `["trim", ${g} && "x", "number"]`; den.mods = ['trim', 'number']; }
   // combinations not decided by the statement
   if ((argForm === 'ns' || argForm === 'nsHyphen' || argForm === 'nsValueSuffix') && second) return null;
   if ((modForm === 'suffix1' || modForm === 'suffix2') && (second || third)) return null;
@@ -144,7 +147,7 @@ export function* generate({ tier, seed }) {
   for (let i = 0; i < nMulti; i++) { const c = buildMulti(rng); yield { gid: `C05-${n++}`, src: c.src, syntax: 'jsx', spec: c.spec, feature: c.feature, variants: [{ vid: 'v0', options: rng.pick(OPTS) }] }; }
   // v-models lists (components) and the same entries as separate v-model attributes
   // v-models on a form element: the same as the one v-model it lists
-  for (const host of HOSTS.filter((h) => !/^component|^member/.test(h))) for (const tk of TARGETS) for (const mf of ['none', 'arrayList', 'arrayEmpty']) {
+  for (const host of HOSTS.filter((h) => !/^component|^member/.test(h))) for (const tk of TARGETS) for (const mf of ['none', 'arrayList', 'arrayEmpty', 'arrayListLeadNonLit', 'arrayListMidNonLit']) {
     const g = emit(host, [[tk, 'none', mf]], 'models', rng.pick(['none', 'plainBefore', 'plainAfter']), [rng.pick(OPTS)]);
     if (g) yield g;
   }
@@ -152,7 +155,7 @@ export function* generate({ tier, seed }) {
   for (let i = 0; i < nLists; i++) {
     const len = 1 + rng.int(3);
     const entries = [];
-    for (let j = 0; j < len; j++) entries.push([rng.pick(TARGETS), rng.pick(['none', 'strSecond', 'strSecond', 'strSecondValueSuffix', 'strSecondHyphen', 'computedSecond']), rng.pick(['none', 'arrayList', 'arrayEmpty'])]); // computed arguments hit a known finding: keep them rare
+    for (let j = 0; j < len; j++) entries.push([rng.pick(TARGETS), rng.pick(['none', 'strSecond', 'strSecond', 'strSecondValueSuffix', 'strSecondHyphen', 'computedSecond']), rng.pick(['none', 'arrayList', 'arrayEmpty', 'arrayListLeadNonLit', 'arrayListMidNonLit'])]); // computed arguments hit a known finding: keep them rare
     // at most one entry without an argument (two would both bind modelValue)
     if (entries.filter((e) => e[1] === 'none').length > 1) continue;
     const host = rng.pick(['component', 'componentUnbound', 'memberInput', 'memberDeepTextarea']);
